@@ -390,8 +390,50 @@ def run_resumed(c, outdir):
             "others_kept": bool(after[:i] + after[i + 1:] == before[1:]), "worst_was_min": bool(before[0] == pid(model, ns.nested_samples[-1])),
             "rank": int(np.sum(np.delete(ll, i) < ll[i])), "it_ok": bool(int(ns.live_points[i]["it"]) == ns.iteration)})
 
+    ckpt = {"n": 0, "bad": [], "mtime": None}
+
+    def inspect_checkpoint(path):
+        """The invariant on the PICKLED state (C01_resume: it reads only pickled fields): what a resume would start from."""
+        import pickle
+        with open(path, "rb") as fh:
+            o = pickle.load(fh)
+        lp, dead = o.live_points, o.nested_samples
+        if lp is None:
+            return None
+        names = [n for n in lp.dtype.names if n not in ("logP", "logL", "it")]
+        key = lambda p: tuple(float(p[n]) for n in names)
+        live = [key(p) for p in lp]
+        deadk = [key(p) for p in dead]
+        ll = lp["logL"]
+        probs = []
+        if len(live) != o.nlive:
+            probs.append(f"{len(live)} live points for nlive={o.nlive}")
+        if not bool(np.all(ll[:-1] <= ll[1:])):
+            probs.append("live points not sorted")
+        if len(set(live)) != len(live):
+            probs.append("a point is twice in the live set")
+        if set(live) & set(deadk):
+            probs.append("a point is both live and already recorded")
+        if len(set(deadk)) != len(deadk):
+            probs.append("a point is recorded twice")
+        if not (len(dead) == o.iteration == len(o.insertion_indices) == len(o.state.logLs) - 1):
+            probs.append(f"counts: {len(dead)} recorded, iteration {o.iteration}, {len(o.insertion_indices)} indices, "
+                         f"{len(o.state.logLs) - 1} evidence increments")
+        return probs
+
     def checkpoint(ns, *a, **k):
         r = real_ckpt(ns, *a, **k)
+        if os.path.exists(ns.resume_file) and not ns.finalised:
+            mt = os.stat(ns.resume_file).st_mtime_ns
+            if mt != ckpt["mtime"]:
+                ckpt["mtime"] = mt
+                ckpt["n"] += 1
+                try:
+                    probs = inspect_checkpoint(ns.resume_file)
+                except Exception as e:  # noqa: BLE001
+                    probs = [f"checkpoint could not be read: {type(e).__name__}: {e}"]
+                if probs and len(ckpt["bad"]) < 5:
+                    ckpt["bad"].append({"iteration": int(ns.iteration), "problems": probs})
         if state["stop"] is not None and ns.iteration >= state["stop"] and not ns.finalised and os.path.exists(ns.resume_file):
             raise StopHere()
         return r
@@ -432,7 +474,8 @@ def run_resumed(c, outdir):
     finally:
         NestedSampler.consume_sample = real_consume
         NestedSampler.checkpoint = real_ckpt
-    return {"stream": [], "events": events, "final": fin, "error": None, "no_model": True, "resumed_at": resumed_at}
+    return {"stream": [], "events": events, "final": fin, "error": None, "no_model": True, "resumed_at": resumed_at,
+            "checkpoints": ckpt["n"], "bad_checkpoints": ckpt["bad"]}
 
 
 def main():
